@@ -79,6 +79,11 @@ impl M {
     }
 
     fn push(&self, s: &mut Sys, to_a: bool, bytes: Vec<u8>, gen: u32) {
+        // The pool is a set: an identical datagram already in flight (a retransmission) adds nothing, because Dup(i) can
+        // deliver any in-flight datagram any number of times.
+        if s.pool.iter().any(|f| f.to_a == to_a && f.bytes == bytes) {
+            return;
+        }
         if s.pool.len() >= self.pool_cap {
             s.pool.remove(0);
             s.overflow += 1;
@@ -330,7 +335,7 @@ impl Model for M {
                     let peer_base = s.bases.iter().filter(|((pa, _, ps, fp), _)| *pa != is_a && *ps == slot && *fp == k.fingerprint).map(|(_, b)| *b).min();
                     let off = |x: &[u8; 12]| -> i128 {
                         let v = util::be96_to_u128(x);
-                        if v < (1 << 32) {
+                        if v < 2 {
                             -1 - v as i128
                         } else {
                             peer_base.map(|b| v.wrapping_sub(b) as i128).unwrap_or(i128::MAX)
@@ -349,7 +354,8 @@ impl Model for M {
             };
             if let Some(i) = &v.init {
                 out.push_str(&format!(
-                    " init(st={} ct={} fr={} last={} ecdh={} algo={:?} crypto=[{}])",
+                    " init(h={} st={} ct={} fr={} last={} ecdh={} algo={:?} crypto=[{}])",
+                    r.id(&i.salted_node_id_hash),
                     i.next_stage,
                     i.close_time,
                     i.failed_retries,
@@ -375,13 +381,35 @@ impl Model for M {
             out.push_str(&format!(" un={} rc={}", v.unencrypted, v.rotate_counter));
         }
         // pool: handshake datagrams are identified by their bytes (class); sealed ones additionally by nothing else
-        let mut items: Vec<String> =
-            s.pool.iter().map(|f| format!("f(to_a={} kind={:?} gen={} c={})", f.to_a, f.bytes.first().map(|b| *b == 0xff), f.gen, r.id(&f.bytes))).collect();
-        // pool order is irrelevant (any datagram may be delivered next) except for overflow eviction, which evicts
-        // the oldest: keep the order only when the pool is full
-        if s.pool.len() < self.pool_cap {
-            items.sort();
-        }
+        // handshake datagrams are described by their CONTENT (stage, sender hash, ECDH key, payload - renamed consistently
+        // with the objects' own fields), sealed ones by slot and bytes class
+        let trusted = mk_crypto(node_id(9), &cfg_with_key(0, &[0], &[]), [1.0, 1.0, 1.0]).expect("crypto");
+        let items: Vec<String> = s
+            .pool
+            .iter()
+            .map(|f| {
+                let content = if f.bytes.first() == Some(&0xff) {
+                    match cv::init_verif::read_from(&f.bytes[1..], trusted.verif_trusted_keys()) {
+                        Ok((cv::InitMsg::Ping { salted_node_id_hash, ecdh_public_key, .. }, _)) => {
+                            format!("ping h={} k={}", r.id(&salted_node_id_hash), r.id(ecdh_public_key.bytes()))
+                        }
+                        Ok((cv::InitMsg::Pong { salted_node_id_hash, ecdh_public_key, encrypted_payload, .. }, _)) => {
+                            format!("pong h={} k={} p={}", r.id(&salted_node_id_hash), r.id(ecdh_public_key.bytes()), r.id(encrypted_payload.message()))
+                        }
+                        Ok((cv::InitMsg::Peng { salted_node_id_hash, encrypted_payload }, _)) => {
+                            format!("peng h={} p={}", r.id(&salted_node_id_hash), r.id(encrypted_payload.message()))
+                        }
+                        Err(_) => "init?".to_string(),
+                    }
+                } else if f.bytes.is_empty() {
+                    "empty".to_string()
+                } else {
+                    format!("sealed slot={}", f.bytes[0])
+                };
+                format!("f(to_a={} {} gen={} c={})", f.to_a, content, f.gen, r.id(&f.bytes))
+            })
+            .collect();
+        // the order of the pool is part of the state: overflow evicts the oldest datagram
         out.push_str(&items.join(","));
         out.into_bytes()
     }
@@ -485,7 +513,7 @@ pub fn run_object_level(ctx: &Ctx) {
             ExploreOpts { max_depth: depth, wall_cap: Duration::from_secs(ctx.tier.pick(45, 2400)), state_cap: ctx.tier.pick(400_000, 8_000_000), dedup: true },
         );
         if i == 0 {
-            explore::audit_dedup(ctx, &fam, &m, &res, ctx.tier.pick(3, 4), Duration::from_secs(ctx.tier.pick(20, 600)));
+            explore::audit_dedup(ctx, &fam, &m, &res, 4, Duration::from_secs(ctx.tier.pick(60, 600)));
         }
     }
 }
